@@ -6,8 +6,6 @@ import (
 	"iter"
 	"maps"
 	"slices"
-
-	"gopkg.in/yaml.v3"
 )
 
 func popMapValue(m map[string]any, k string) (bool, any, map[string]any) {
@@ -301,18 +299,40 @@ func toStringListPermissive(v any) ([]string, error) {
 	return ret, nil
 }
 
+// deepClone returns a structural copy of v that shares no map or list with
+// it. Scalars keep their exact type and value and map keys are copied
+// verbatim.
 func deepClone(v any) (any, error) {
-	yml, err := yaml.Marshal(v)
-	if err != nil {
-		return nil, err
+	switch v2 := v.(type) {
+	case map[string]any:
+		ret := make(map[string]any, len(v2))
+
+		for k, val := range v2 {
+			val2, err := deepClone(val)
+			if err != nil {
+				return nil, err
+			}
+
+			ret[k] = val2
+		}
+
+		return ret, nil
+
+	case []any:
+		ret := make([]any, len(v2))
+
+		for i, val := range v2 {
+			val2, err := deepClone(val)
+			if err != nil {
+				return nil, err
+			}
+
+			ret[i] = val2
+		}
+
+		return ret, nil
+
+	default:
+		return v, nil
 	}
-
-	var ret any
-
-	err = yaml.Unmarshal(yml, &ret)
-	if err != nil {
-		return nil, err
-	}
-
-	return ret, nil
 }
